@@ -8,7 +8,7 @@ from .registry import clause_text, clause_active
 SPEC_FUNCS = {"old", "implies", "forall", "exists", "isint", "isstr", "isnone", "isbool", "isref", "ispath", "isfloat",
               "isbytes", "elems", "at", "length", "result", "iff", "count_where", "isclass", "keys", "lookup", "haskey",
               "distinct", "isfile", "isdir", "exists_path", "issymlink", "fs_text", "fs_target", "effect", "no_effect",
-              "effect_count", "fresh", "unchanged", "ite", "seq_eq", "raised", "isfresh", "forall_keys", "forall_val", "isregular"}
+              "effect_count", "fresh", "unchanged", "ite", "seq_eq", "raised", "isfresh", "forall_keys", "forall_val", "isregular", "effect_before", "effect_result", "at_effect", "fs_read", "parses_int"}
 
 
 class CallMixin:
@@ -76,10 +76,10 @@ class CallMixin:
         ty = base_type(recv.ty)
         if ty and ty.startswith("type:"):
             cls = ty[5:]
-            k = self.reg.lookup(cls, meth, self.functions) or self.reg.lookup(cls, meth, self.reg.contracts)
+            k = self.reg.lookup2(cls, meth, self.functions, self.reg.contracts)
             if k:
                 return self.call_function(st, k, args, kw, lineno)
-        k = self.reg.lookup(ty, meth, self.functions) or self.reg.lookup(ty, meth, self.reg.contracts)
+        k = self.reg.lookup2(ty, meth, self.functions, self.reg.contracts)
         if k is not None:
             return self.call_function(st, k, [recv] + args, kw, lineno, recv_ty=ty)
         b = getattr(self, f"m_{ty}_{meth}", None)
@@ -223,7 +223,7 @@ class CallMixin:
             finally:
                 self._fresh_range = saved_fr
             if eff:
-                s2.trace.append(Effect(eff, list(args), lineno, s2.copy()))
+                s2.trace.append(Effect(eff, list(args), lineno, s2.copy(), res=res))
             if kind == "normal":
                 if not self.feasible(s2):
                     continue
